@@ -13,26 +13,37 @@ from .ir import (AnalysisError, ClassInfo, FuncInfo, ancestors, dotted, enclosin
 
 def call_index(ctx):
     """[(func, call, Res)] for every call in the package (cached on ctx)."""
-    idx = getattr(ctx, '_call_index', None)
+    shared = getattr(ctx, '_shared', None)
+    if shared is None:
+        shared = ctx.__dict__.setdefault('_shared_local', {})
+    idx = shared.get('call_index')
     if idx is None:
         idx = []
         for f in ctx.p.all_functions():
             for c in own_calls(f.node):
                 idx.append((f, c, ctx.r.resolve(c, f)))
-        ctx._call_index = idx
+        shared['call_index'] = idx
+        shared['by_func'] = {}
+        for f, c, r in idx:
+            shared['by_func'].setdefault(f, []).append((c, r))
+        shared['callers'] = {}
+        for f, c, r in idx:
+            if r.kind in ('package', 'ambiguous'):
+                for t in r.targets:
+                    shared['callers'].setdefault(t.qualname, []).append((f, c, r))
     return idx
 
 
 def calls_in(ctx, func):
-    return [(c, r) for f, c, r in call_index(ctx) if f is func]
+    call_index(ctx)
+    sh = getattr(ctx, '_shared', None) or ctx.__dict__['_shared_local']
+    return list(sh['by_func'].get(func, []))
 
 
 def callers_of(ctx, qualname):
-    out = []
-    for f, c, r in call_index(ctx):
-        if r.kind in ('package', 'ambiguous') and any(t.qualname == qualname for t in r.targets):
-            out.append((f, c, r))
-    return out
+    call_index(ctx)
+    sh = getattr(ctx, '_shared', None) or ctx.__dict__['_shared_local']
+    return list(sh['callers'].get(qualname, []))
 
 
 def client_calls(ctx, op=None, modules=None):
@@ -478,7 +489,8 @@ def task_ctors_of(ctx, expr, func, depth=0):
 
 def submits(ctx):
     """Every site that hands a task to an executor."""
-    cached = getattr(ctx, '_submits', None)
+    sh = getattr(ctx, '_shared', None)
+    cached = sh.get('submits') if sh is not None else getattr(ctx, '_submits', None)
     if cached is not None:
         return cached
     out = []
@@ -505,6 +517,8 @@ def submits(ctx):
                     s = Submit(f, c, c.args[1], c.args[2], None, 'FunctionContainer')
                     s.task_ctors = task_ctors_of(ctx, s.task_expr, f)
                     out.append(s)
+    if sh is not None:
+        sh['submits'] = out
     ctx._submits = out
     return out
 
